@@ -5,7 +5,7 @@ _T1 = "quimb/tensor/tn1d/core.py"
 entry_extend(
     "C13", modules=["contracts.c13_ext"], E1=[], LEMMAS=False,
     PROVIDERS=["contracts.c13_ext.provider", "contracts.c13_ext.provider_2d", "contracts.c13_ext.provider_3d",
-               "contracts.c13_ext.provider_1d_envs"],
+               "contracts.c13_ext.provider_1d_envs", "contracts.c13_ext.provider_pt"],
     TRUSTED=[
         "c13_ext harness: the ast node of each target function is cut out of the file re-read from the checkout on every "
         "run and compiled UNCHANGED (none of the targets is decorated; the harness refuses a decorated target); free names "
@@ -22,6 +22,12 @@ entry_extend(
         "for every value",
     ],
     ASSUMPTIONS=[
+        "c13_ext partial_trace: the dense matrix handed back by to_dense(rows, cols) is an atom of the FREE *-algebra named "
+        "by its row / column labels; rho, rho^T, conj(rho), rho^H = conj(rho^T) are four different words, coefficients are "
+        "exact rationals, a division by trace(X) is recorded as a denominator X (leaf: autoray dag(x) = x^H, do('trace' / "
+        "'transpose' / 'conj')); domain: keep = every ordered tuple of 1..2 of the sites 0..2 of a 4-site network (site 3 has "
+        "no tag: the 'site exists still' guard), symmetrized in {'auto', True, False}, flatten in {True, False, 'all'}, "
+        "normalized, reduce, method in {contract_compressed, contract_around, other}, rehearse in {False, True, 'tn', 'tree'}",
         "c13_ext domains (exhaustive over): number of terms 1..3 (dict or mapping-like), number of clusters 1..3 with "
         "symbolic values / norms (positive) / integer counts, combine in {prod, sum, other}, normalized in {True, False, "
         "'local', 'separate', 'prod', other}, return_all, rehearse in {absent, False, True, 'tn', 'tree'}, executor in "
@@ -47,10 +53,11 @@ entry_extend(
         "MatrixProductState.compute_local_expectation_canonical": ["compute_local_expectation_canonical"],
         "MatrixProductState.compute_local_expectation": ["compute_local_expectation(method"],
         "TensorNetwork2DVector.compute_local_expectation": ["PEPS.compute_local_expectation", "plaquette"],
+        "TensorNetworkGenVector.partial_trace": ["TensorNetworkGenVector.partial_trace"],
         "PEPS3D.compute_local_expectation": ["PEPS3D.partial_trace / partial_trace_cluster / compute_local_expectation"],
         "MatrixProductState.compute_local_expectation_via_envs": ["via_envs", "envs"],
     },
-    EXPLANATION="Extension (provider obligations fdx / e2 on the real source of 21 functions, executed natively with "
+    EXPLANATION="Extension (provider obligations fdx / e2 on the real source of 22 functions, executed natively with "
                 "recording stand-ins): the combination table of the cluster / loop expansions for every (combine, "
                 "normalized) pair as exact rational functions (prod: prod e^C * prod n^-C for ANY truthy normalized, sum: "
                 "local / separate / none; a cluster spanning the network gives <G>/<1>); the many-terms helper and its five "
@@ -76,4 +83,9 @@ entry_extend(
                 "sites): the operator is gated onto a COPY of the ket section min..max with the sites in the order given, the "
                 "bra section is ungated, the network is completed by exactly the left environment of min and the right "
                 "environment of max when they exist, the single denominator is the whole norm network, each value is divided "
-                "by it exactly once iff normalized; dict or sum.")
+                "by it exactly once iff normalized; dict or sum.  TensorNetworkGenVector.partial_trace (compressed route, free "
+                "*-algebra tokens): result = rho, or (rho + rho^H)/2 exactly iff the resolved symmetrized flag ('auto' -> not "
+                "flatten), divided by its own trace exactly once iff normalized; rows = ket labels, columns = bra labels in the "
+                "order of keep, bra_ind_id consistent with make_reduced_density_matrix on the copy; flatten contracts the traced "
+                "(or all) existing sites; method table (contract_compressed / contract_around / ValueError) with max_bond, "
+                "optimize, output_inds and every extra option threaded; reduce on the copy only; rehearse returns early.")
